@@ -1033,7 +1033,16 @@ def install_modular(it, db, classmap, root_class, leftovers=None):
                 sensitive.add(cname)
         it.prog._ctx_sensitive = sensitive
 
+    def raw_of_slice(v, depth=0):
+        if isinstance(v, Sym) and isinstance(v.key, tuple) and v.key[:1] == ('sliceattr',):
+            return True
+        return isinstance(v, Term) and depth < 4 and any(raw_of_slice(x, depth + 1) for x in v.a)
+
     def hook(f, args, kw):
+        if f.cls is not None and f.cls.name == 'Cell' and f.name == '__init__' and any(raw_of_slice(a) for a in list(args[1:]) + list(kw.values())):
+            # Cell(slice.bits.copy(), slice.refs[slice.ref_offset:], ...): a snapshot of what is left of the slice, built from its raw
+            # containers - the same thing as slice.copy().to_cell(); it reads nothing, the cell stays opaque
+            return K(None)
         if f.cls is not None and f.cls.name == 'Slice' and args and isinstance(args[0], AbsSlice):
             # Slice.load_x(slice_obj): the unbound spelling of slice_obj.load_x() - the typestate model answers, not the real method body
             return args[0].method(it, f.name, list(args[1:]), kw, None)
